@@ -70,6 +70,7 @@ func runC20(c *Ctx) {
 	c.rule("H1", "every write into hashingAlgo.Hash is preceded (dominated) by Hash.Reset(), or every path from the write to a return — error returns included — passes Hash.Reset() (explicit or deferred)", 1)
 	c.rule("H1w", "hashingAlgo.Hash is touched only by methods of hashingAlgo and its constructor", 2)
 	c.rule("H2", "the digest returned is hex.EncodeToString(Hash.Sum(nil)) computed after the copy; the copy reads the caller's reader itself into Hash", 3)
+	c.rule("H5", "a digest is returned only where the copy into the hasher reported no error at all", 1)
 	c.rule("H3", "NewHashingAlgorithm maps each algorithm name to the standard, unkeyed constructor", 6)
 	c.rule("H4", "file hashing opens the requested path and passes that handle, unchanged, down to IHash.Calculate*", 6)
 
@@ -308,6 +309,22 @@ func (c *Ctx) c20Method(f *ssa.Function) int {
 				}
 			}
 			c.check(isParam, "H2", key, c.ipos(w), "the caller's reader is copied as given", "the reader handed to the copy is not the caller's reader itself (wrapped, limited or replaced): bytes may be dropped or added")
+			// H5: a digest is only returned where the copy reported no error at all — a reader that fails at byte k (whatever
+			// the error: io.ErrUnexpectedEOF is converted to the library's EOF kind) yields no digest of the first k bytes.
+			if errs := errResultsOf(w); len(errs) > 0 {
+				bad := ""
+				allInstrs(f, func(in ssa.Instruction) {
+					r, isRet := in.(*ssa.Return)
+					if !isRet || isErrorExit(f, r) {
+						return
+					}
+					if !onNilSide(errs[0], r) {
+						bad = c.ipos(r)
+					}
+				})
+				c.check(bad == "", "H5", fname(f)+"/digest-only-after-a-complete-copy", c.ipos(w), "every return that can report success lies on the side where the copy's error is nil",
+					"the return at "+bad+" can report success although the copy into the hasher reported an error (some error is tolerated after the copy): a reader cut short at byte k — io.ErrUnexpectedEOF, which the library converts to its EOF kind — yields the digest of the first k bytes and a nil error")
+			}
 			// the callee must be the whole-stream copy
 			cal := calleeFull(&w.Call)
 			c.check(cal == modPath+"/safeio.CopyDataWithContext" || cal == "io.Copy", "H2", fname(f)+"/copier", c.ipos(w),
